@@ -118,8 +118,11 @@ func cmdVerify(args []string) {
 	for _, e := range prog.specErrors {
 		fmt.Println("SPEC-ERROR:", e)
 	}
-	cfg := SolverCfg{WorkDir: "/tmp/govc-work", Timeout: time.Duration(*timeout) * time.Second, Parallel: 16, KeepFiles: *keep}
+	cfg := SolverCfg{WorkDir: fmt.Sprintf("/tmp/govc-work/%d", os.Getpid()), Timeout: time.Duration(*timeout) * time.Second, Parallel: 16, KeepFiles: *keep}
 	Discharge(units, cfg)
+	if !*keep {
+		defer os.RemoveAll(cfg.WorkDir)
+	}
 	nob, nok := 0, 0
 	for _, u := range units {
 		if u.Err != nil {
